@@ -286,6 +286,9 @@ class FuncTr:
         for st in stmts:
             if isinstance(st, ast.Expr) and isinstance(st.value, ast.Constant):
                 continue  # docstring
+            if isinstance(st, ast.Expr) and isinstance(st.value, ast.Call) \
+                    and ast.unparse(st.value.func) in ("warnings.warn", "warn"):
+                continue  # warnings have no effect on the value computed
             if isinstance(st, ast.Assign):
                 tgt = st.targets
                 # chained assignment  a = b = 0
